@@ -128,6 +128,22 @@ Theorem C20_ws_named_host : forall p : str, digits p = true ->
   dials (sch_ws ++ c_colon :: p) sch_ws p /\ dials (sch_wss ++ c_colon :: p) sch_wss p.
 Proof. exact ws_named_host_dials. Qed.
 
+(* Reconnections.  A client keeps ONE transport object and calls its Connect again for
+   every reconnection; [client_dials a outcomes] / [component_dials a outcomes] are the
+   addresses dialled by the successive Connects of the transport the constructor returns
+   for a, [outcomes] saying for each attempt which peer address it reached or that it
+   failed.  Whatever dials a host port (every C20_dial_* theorem above and below), EVERY
+   Connect - the second and the third as the first, after successes and failures - dials a
+   host:port that splits into exactly that host and port: the host given is kept (not
+   replaced by the IP address an earlier connection reached). *)
+Theorem C20_redial_keeps_host : forall (a host port : str) (outcomes : list (option str)),
+  dials a host port ->
+  Forall (fun d => split_host_port d = SplitOk host port) (client_dials a outcomes) /\
+  Forall (fun d => split_host_port d = SplitOk host port) (component_dials a outcomes) /\
+  length (client_dials a outcomes) = length outcomes /\
+  length (component_dials a outcomes) = length outcomes.
+Proof. exact redial. Qed.
+
 (* SRV: a portless host completed with the SRV port n is dialled at exactly that host
    and port n - 5222 is not added a second time (srv.Target is a DNS name; the IPv6
    forms are stated for completeness). *)
@@ -193,6 +209,9 @@ Example C20_example :
   client_transport (sch_ws ++ c_colon :: ex_port) = Tcp (sch_ws ++ c_colon :: ex_port) /\
   checker_params (c_lbr :: ex_v6m ++ c_rbr :: c_colon :: ex_port)
     = Some (c_lbr :: ex_v6m ++ c_rbr :: c_colon :: ex_port, ex_v6m) /\
+  (* three Connects of the transport for "a-1.example.:65535"; the first reached some peer address *)
+  client_dials (ex_name ++ c_colon :: ex_port) [Some ex_v6m; None; Some ex_v6z]
+    = [ex_name ++ c_colon :: ex_port; ex_name ++ c_colon :: ex_port; ex_name ++ c_colon :: ex_port] /\
   (* SRV: "a-1.example." completed with port 5269, then handed to the constructor *)
   client_transport (ensure_port ex_name 5269) = Tcp (ex_name ++ c_colon :: itoa 5269) /\
   (* outside the statement: bare IPv6 directly followed by ":port" *)
@@ -209,6 +228,7 @@ Print Assumptions C20_ports_are_ok.
 Print Assumptions C20_default_port.
 Print Assumptions C20_ensure_port_idempotent.
 Print Assumptions C20_dial_srv.
+Print Assumptions C20_redial_keeps_host.
 Print Assumptions C20_empty_port_not_defaulted.
 Print Assumptions C20_T6_scheme.
 Print Assumptions C20_T6_no_scheme.
